@@ -916,6 +916,121 @@ def a_temp_into_source(fn, bi, i, j):
     return True
 
 
+def c_tail_dup(fn, ref):
+    """if c: A else: B ; S   ->   if c: A; S  else: B; S        (S a simple statement; neither arm ends in a jump)"""
+    out = []
+    for bi, (o, f) in enumerate(blocks(fn)):
+        b = getattr(o, f)
+        for i in range(len(b) - 1):
+            s, t = b[i], b[i + 1]
+            if isinstance(s, ast.If) and s.orelse and isinstance(t, (ast.Assign, ast.Expr, ast.AugAssign)) and not isinstance(s.body[-1], JUMPS) and not isinstance(s.orelse[-1], JUMPS):
+                out.append((bi, i))
+    return out
+
+
+def a_tail_dup(fn, bi, i):
+    o, f = blocks(fn)[bi]
+    b = getattr(o, f)
+    s, t = b[i], b[i + 1]
+
+    def push(arm):
+        last = arm[-1]
+        if isinstance(last, ast.If) and last.orelse and not isinstance(last.body[-1], JUMPS) and not isinstance(last.orelse[-1], JUMPS) and len(arm) == 1:
+            push(last.body)
+            push(last.orelse)
+        else:
+            arm.append(copy.deepcopy(t))
+
+    push(s.body)
+    push(s.orelse)
+    del b[i + 1]
+    return True
+
+
+def c_tail_merge(fn, ref):
+    out = []
+    for bi, (o, f) in enumerate(blocks(fn)):
+        for i, s in enumerate(getattr(o, f)):
+            if isinstance(s, ast.If) and s.orelse and len(s.body) > 1 and len(s.orelse) > 1 and isinstance(s.body[-1], (ast.Assign, ast.Expr, ast.AugAssign)) \
+                    and ast.dump(s.body[-1]) == ast.dump(s.orelse[-1]):
+                out.append((bi, i))
+    return out
+
+
+def a_tail_merge(fn, bi, i):
+    o, f = blocks(fn)[bi]
+    b = getattr(o, f)
+    s = b[i]
+    t = s.body.pop()
+    s.orelse.pop()
+    b.insert(i + 1, t)
+    return True
+
+
+def c_hoist_gone_local(fn, ref):
+    """The reference has `name = E` for a local the function no longer has, and E still occurs in the function: re-introduce the local
+    right before the first statement that contains E (E call-free apart from pure numpy functions, its inputs not assigned in between)."""
+    out = []
+    rt = ref.get("ref_tree")
+    if rt is None:
+        return out
+    for nm in sorted(ref["gone"]):
+        defs = [n for n in ast.walk(rt) if isinstance(n, ast.Assign) and len(n.targets) == 1 and isinstance(n.targets[0], ast.Name) and n.targets[0].id == nm]
+        if len(defs) != 1 or nm in _names(fn):
+            continue
+        et = ast.unparse(defs[0].value)
+        if isinstance(defs[0].value, (ast.Name, ast.Constant)) or not _pure_expr(defs[0].value):
+            continue
+        for bi, (o, f) in enumerate(blocks(fn)):
+            b = getattr(o, f)
+            for i, s in enumerate(b):
+                if isinstance(s, (ast.Assign, ast.Expr, ast.Return, ast.AugAssign)) and any(ast.unparse(x) == et for x in ast.walk(s) if isinstance(x, ast.expr)):
+                    out.append((bi, i, nm, et))
+                    break
+    return out
+
+
+def _pure_expr(e):
+    for n in ast.walk(e):
+        if isinstance(n, ast.Call):
+            t = ast.unparse(n.func)
+            if not (t.startswith("np.") and t.split(".")[-1] in ("sqrt", "abs", "exp", "log", "sin", "cos", "power", "square", "asarray", "prod", "sum", "size", "isclose", "logical_and", "logical_or", "logical_not")):
+                return False
+    return True
+
+
+def a_hoist_gone_local(fn, bi, i, nm, et):
+    o, f = blocks(fn)[bi]
+    b = getattr(o, f)
+    expr = None
+
+    class R(ast.NodeTransformer):
+        def generic_visit(self, node):
+            nonlocal expr
+            if isinstance(node, ast.expr) and ast.unparse(node) == et:
+                if expr is None:
+                    expr = node
+                return ast.Name(nm, ast.Load())
+            return super().generic_visit(node)
+
+    inputs = None
+    j = i
+    while j < len(b):
+        if inputs is not None and any(isinstance(x, ast.Name) and isinstance(x.ctx, (ast.Store, ast.Del)) and x.id in inputs for x in ast.walk(b[j])):
+            break
+        b[j] = R().visit(b[j])
+        if inputs is None and expr is not None:
+            inputs = _names(expr)
+            if any(isinstance(x, ast.Name) and isinstance(x.ctx, (ast.Store, ast.Del)) and x.id in inputs for x in ast.walk(b[j])):
+                j += 1
+                break
+        j += 1
+    if expr is None:
+        return False
+    b.insert(i, ast.Assign([ast.Name(nm, ast.Store())], expr))
+    return True
+
+
 REWRITES = [
     ("rename", c_rename, a_rename),
     ("else-hoist", c_else_hoist, a_else_hoist),
@@ -947,13 +1062,17 @@ REWRITES = [
     ("if-to-ifexp", c_if_to_ifexp, a_if_to_ifexp),
     ("flag-into-arms", c_flag_into_arms, a_flag_into_arms),
     ("temp-into-source", c_temp_into_source, a_temp_into_source),
+    ("tail-dup", c_tail_dup, a_tail_dup),
+    ("tail-merge", c_tail_merge, a_tail_merge),
+    ("hoist-gone-local", c_hoist_gone_local, a_hoist_gone_local),
 ]
 
 
 BUDGET = 500  # candidate rewrites evaluated per function (each costs a copy + unparse of the function)
 # look-ahead: first steps that do not themselves recover reference lines but enable a second step that does
-ENABLERS = {"flag-into-arms", "ifexp-to-if", "else-unhoist", "else-hoist", "swap-arms", "ret-ifexp-split", "early-return-to-if", "if-to-early-return", "continue-to-if", "if-to-continue", "nested-merge", "nested-split"}
+ENABLERS = {"tail-dup", "flag-into-arms", "ifexp-to-if", "else-unhoist", "else-hoist", "swap-arms", "ret-ifexp-split", "early-return-to-if", "if-to-early-return", "continue-to-if", "if-to-continue", "nested-merge", "nested-split"}
 FOLLOWERS = {
+    "tail-dup": None,
     "flag-into-arms": {"move-stmt", "swap-arms", "swap-stmts"},
     "ifexp-to-if": {"swap-arms"},
     "else-unhoist": {"retvar-intro", "drop-tail-return", "swap-arms", "else-unhoist"},
@@ -990,9 +1109,14 @@ def search(fn, ref_text, ref_locals, max_steps=24, lookahead=True):
 
     budget = [BUDGET]
 
+    try:
+        ref_tree = ast.parse(ref_text)
+    except SyntaxError:
+        ref_tree = None
+
     def options(f, only=None):
         loc = local_names(f)
-        ref = {"new": loc - set(ref_locals), "gone": set(ref_locals) - loc}
+        ref = {"new": loc - set(ref_locals), "gone": set(ref_locals) - loc, "ref_tree": ref_tree}
         res = []
         for name, cands, app in REWRITES:
             if only is not None and name not in only:
